@@ -110,6 +110,8 @@ def load(repo='/repo', patterns=('./...',), out=None):
             prog.closure_renames = ren
             if fr_:
                 prog.function_renames = fr_
+        from .baseline import apply_field_renames
+        prog.field_renames = apply_field_renames(prog)
     return prog
 
 
